@@ -236,7 +236,13 @@ func storeStr(l *face.NDNLPLinkService) string {
 }
 
 func opHeader(o *lpOp) string {
-	h := fmt.Sprintf("mtu=%d frag=%s ifi=%s seq=%d tok=%s inface=%s mark=%s", o.mtu, b01(o.frag), b01(o.ifi), o.seq, hx(o.tok), optU(o.inface), optU(o.mark))
+	// the PIT token comes in three shapes: nil ("-"), empty but non-nil ("e": what the forwarder passes for Data whose downstream
+	// Interest carried no token), non-empty (hex)
+	tk := hx(o.tok)
+	if o.tok != nil && len(o.tok) == 0 {
+		tk = "e"
+	}
+	h := fmt.Sprintf("mtu=%d frag=%s ifi=%s seq=%d tok=%s inface=%s mark=%s", o.mtu, b01(o.frag), b01(o.ifi), o.seq, tk, optU(o.inface), optU(o.mark))
 	if len(o.hist) > 0 {
 		h += " hist=" + strings.Join(o.hist, ",")
 	}
@@ -705,6 +711,9 @@ var lpMTUsThorough = []int{128, 129, 200, 255, 256, 257, 300, 576, 1280, 1500, 4
 func pickToken(r *rand.Rand, nthreads int) []byte {
 	switch r.Intn(6) {
 	case 0:
+		if r.Intn(2) == 0 {
+			return []byte{} // absent, but not nil
+		}
 		return nil
 	case 1, 2: // the forwarder's own format: uint16 thread + uint32
 		t := make([]byte, 6)
@@ -968,13 +977,16 @@ func genVaryCase(r *rand.Rand, idx int) *lpCase {
 			tok = append([]byte{}, tok...)
 			r.Read(tok)
 		}
+		if tok == nil && r.Intn(2) == 0 {
+			tok = []byte{}
+		}
 		if !ifi {
 			inface = nil
 		}
 		var size int
 		switch r.Intn(4) {
-		case 0: // exactly filling the MTU with the fields of THIS packet
-			size = exactFit(mtu, tok, inface, mark)
+		case 0: // at the one-frame limit for the fields of THIS packet: limit-2 .. limit+2
+			size = exactFit(mtu, tok, inface, mark) - 2 + r.Intn(5)
 		case 1: // fragmented
 			size = mtu + 50 + r.Intn(mtu)
 		default:
@@ -1199,6 +1211,8 @@ func genSweepCase(r *rand.Rand, idx int, mtu int, sizes []int) *lpCase {
 		tok = []byte{0, 0, 1, 2, 3, 4}
 	case 2:
 		tok = make([]byte, 32)
+	case 3:
+		tok = []byte{} // empty but non-nil: must be treated exactly like no token
 	}
 	var mark, inface *uint64
 	if idx%5 >= 3 {
@@ -1514,7 +1528,7 @@ func parseKV(fields []string) map[string]string {
 	return m
 }
 func unhx(s string) []byte {
-	if s == "-" || s == "" {
+	if s == "-" || s == "" || s == "e" {
 		return nil
 	}
 	b, err := hex.DecodeString(s)
@@ -1561,6 +1575,9 @@ func readLpCases(path string) ([]*lpCase, error) {
 			mtu, _ := strconv.Atoi(kv["mtu"])
 			seq, _ := strconv.ParseUint(kv["seq"], 10, 64)
 			o := &lpOp{kind: fs[0], mtu: mtu, frag: kv["frag"] == "1", ifi: kv["ifi"] == "1", seq: seq, tok: unhx(kv["tok"]), inface: unoptU(kv["inface"]), mark: unoptU(kv["mark"])}
+			if kv["tok"] == "e" {
+				o.tok = []byte{}
+			}
 			if h, ok := kv["hist"]; ok && h != "" && h != "-" {
 				o.hist = strings.Split(h, ",")
 			}
